@@ -176,8 +176,17 @@ var LoopUnroll = true
 // SimplePaths enumerates the simple (no block repeated) paths from 'from' to
 // any block satisfying isTarget, up to max paths. A path ends at the first
 // target it meets. ok=false if the cap was hit.
+// PathCapFactor scales the path caps of 1024 and above (see SimplePaths).
+var PathCapFactor = 8
+
 func SimplePaths(from *ssa.BasicBlock, isTarget func(*ssa.BasicBlock) bool, max int) (paths []Path, ok bool) {
 	ok = true
+	// the callers' caps were chosen when the functions at hand had a few dozen paths; a function
+	// with a dozen sequential early-return checks and two loops has tens of thousands, and giving
+	// up there is a (false) alarm. Enumeration is cheap; allow eight times the stated cap.
+	if max >= 1024 {
+		max *= PathCapFactor
+	}
 	// a loop header may be passed twice (zero or one iteration of every loop is
 	// explored: values assigned in a loop body reach the code behind the loop);
 	// every other block at most once
